@@ -1,7 +1,7 @@
 (* C01 — Result models accept and preserve every conformant response.  Property theorems only. *)
 From Coq Require Import List String Ascii Bool ZArith.
 From AC Require Import Base.Strs Base.Sexp Base.Json Gql.Schema Gql.Exec Py.Ann Py.Pydantic
-     Model.Names Model.Results Proofs.ResultsP.
+     Model.Names Model.Results Proofs.ResultsP Proofs.ResultsRunP Proofs.ResultsObjP.
 Import ListNotations.
 Local Open Scope string_scope.
 Local Open Scope list_scope.
@@ -20,6 +20,75 @@ Definition C01_preserves_full : Prop :=
     all_classes fuel C S frs (DOp kind name mixins sels) = Ok cls ->
     conf_op fuel S frs root sels j = true ->
     covers fuel cls (AClass (pascal_s name)) j = true.
+
+(* ---- proved (object-level refinement, sub-language op_ok): selection sets of fields only (aliases,
+        @skip/@include flags, __typename), leaf fields of scalar / enum type and composite fields of OBJECT
+        type nested to any depth, any list / non-null wrappers; pairwise distinct response keys per
+        selection set; no Python field name (when it differs from its response key) equal to another
+        response key of the same set.  Ghost-output guards: no class skipped by the _public_names check
+        (third component of op_parse = false), no generated class called BaseModel.
+        The classes are all_classes' (operation module + fragments module).
+        Fuel: conformance at ANY fuel fc; validation at every fuel n >= fuel + 1 (the generator's fuel). ---- *)
+Theorem C01_accepts_partial :
+  forall C S frs fuel kind name sels root own pub' cls g cov fc j n,
+    root_type_name S kind = Ok root ->
+    op_parse fuel C S frs kind name [] sels = Ok (own, pub', false) ->
+    all_classes fuel C S frs (DOp kind name [] sels) = Ok cls ->
+    op_ok g cov C S root sels = true -> no_basemodel own = true ->
+    conf_op fc S frs root sels j = true ->
+    n >= fuel + 1 ->
+    accepts n cls (schema_enums S) (AClass (pascal_s name)) j = true.
+Proof. exact op_accepts. Qed.
+Print Assumptions C01_accepts_partial.
+
+(* preservation: additionally pairwise distinct Python field names per selection set (op_ok _ true) and
+   a payload in which no object repeats a key (jwf; true of every parsed JSON document) *)
+Theorem C01_preserves_partial :
+  forall C S frs fuel kind name sels root own pub' cls g fc j n,
+    root_type_name S kind = Ok root ->
+    op_parse fuel C S frs kind name [] sels = Ok (own, pub', false) ->
+    all_classes fuel C S frs (DOp kind name [] sels) = Ok cls ->
+    op_ok g true C S root sels = true -> no_basemodel own = true ->
+    conf_op fc S frs root sels j = true -> jwf j = true ->
+    n >= fuel + 1 ->
+    covers n cls (AClass (pascal_s name)) j = true.
+Proof. exact op_covers. Qed.
+Print Assumptions C01_preserves_partial.
+
+(* the same at the level of one generated class (any nesting depth below it), for any class table that
+   resolves the generated names to the generated classes *)
+Theorem C01_object_accepts :
+  forall C S frs fuel g cov nested pub cn tn sels tv out pub' cs fc kv n,
+    parse_type_def fuel C S frs pub cn tn sels false [] tv = Ok (out, pub', false) ->
+    sels_ok g cov C S nested tn sels = true -> tv_ok nested tn tv -> table_ok cs out ->
+    conf_obj_with (conf_val fc S frs) S tn (collect_scopes fc S frs tn [(false, sels)]) kv = true ->
+    n >= fuel + 1 ->
+    accepts n cs (schema_enums S) (AClass cn) (JObj kv) = true.
+Proof. exact obj_accepts. Qed.
+Print Assumptions C01_object_accepts.
+
+Theorem C01_object_covers :
+  forall C S frs fuel g nested pub cn tn sels tv out pub' cs fc kv n,
+    parse_type_def fuel C S frs pub cn tn sels false [] tv = Ok (out, pub', false) ->
+    sels_ok g true C S nested tn sels = true -> tv_ok nested tn tv -> table_ok cs out ->
+    conf_obj_with (conf_val fc S frs) S tn (collect_scopes fc S frs tn [(false, sels)]) kv = true ->
+    jwf (JObj kv) = true ->
+    n >= fuel + 1 ->
+    covers n cs (AClass cn) (JObj kv) = true.
+Proof. exact obj_covers. Qed.
+Print Assumptions C01_object_covers.
+
+(* without a skipped class the generated class names are pairwise distinct (so the class table of the
+   module resolves every generated name to the class generated for it) *)
+Theorem C01_class_names_distinct :
+  forall C S frs fuel cn tn sels at_ eb tv out pub',
+    parse_type_def fuel C S frs [] cn tn sels at_ eb tv = Ok (out, pub', false) ->
+    pub' = map c_name out /\ NoDup (map c_name out).
+Proof.
+  intros C S frs fuel cn tn sels at_ eb tv out pub' H. apply ptd_names in H. destruct H as [H1 H2].
+  simpl in H1. split; [exact H1 | rewrite <- H1; apply H2; constructor].
+Qed.
+Print Assumptions C01_class_names_distinct.
 
 (* ---- proved: every nullability / list wrapper, at any depth ---- *)
 Theorem C01_wrappers_accept :
@@ -116,3 +185,41 @@ Example C01_full_hypotheses_satisfiable :
                  SInline (Some "Dog") false [SField (Some "petName") "name" false [] None]])] j = true /\
     accepts 30 cls (schema_enums S4) (AClass "Q") j = true /\ covers 30 cls (AClass "Q") j = true.
 Proof. eexists. split; [vm_compute; reflexivity|]. vm_compute. repeat split. Qed.
+
+(* ---- non-vacuity of the partial theorems: nested (two levels of objects), aliased, list-wrapped,
+        conditional fields, enum, __typename literal ---- *)
+Definition SX : schema :=
+  {| s_types := [("Query", DObject [] [("user", TNamed "User");
+                                       ("users", TNonNull (TList (TNonNull (TNamed "User"))))]);
+                 ("User", DObject [] [("id", TNonNull (TNamed "ID")); ("fullName", TNamed "String");
+                                      ("role", TNonNull (TNamed "Role")); ("address", TNamed "Address");
+                                      ("tags", TList (TNamed "String"))]);
+                 ("Address", DObject [] [("city", TNonNull (TNamed "String")); ("zip", TNamed "Int")]);
+                 ("Role", DEnum ["ADMIN"; "USER"])] ++ std;
+     s_query := Some "Query"; s_mutation := None; s_subscription := None |}.
+Definition selsX : list sel :=
+  [SField (Some "people") "users" false []
+     (Some [SField None "__typename" false [] None; SField None "id" false [] None;
+            SField (Some "name") "fullName" true [] None; SField None "role" false [] None;
+            SField (Some "homeAddress") "address" false []
+              (Some [SField None "city" false [] None; SField None "zip" true [] None]);
+            SField None "tags" false [] None]);
+   SField None "user" true [] (Some [SField None "id" false [] None])].
+Definition jX : json :=
+  JObj [("people", JArr [JObj [("__typename", JStr "User"); ("id", JStr "1"); ("role", JStr "ADMIN");
+                               ("homeAddress", JObj [("city", JStr "X")]);
+                               ("tags", JArr [JStr "a"; JNull])];
+                         JObj [("__typename", JStr "User"); ("id", JStr "2"); ("name", JNull);
+                               ("role", JStr "USER"); ("homeAddress", JNull); ("tags", JNull)]])].
+
+Example C01_partial_hypotheses_satisfiable :
+  exists own pub' cls,
+    root_type_name SX "query" = Ok "Query" /\
+    op_parse 10 C0 SX [] "query" "GetPeople" [] selsX = Ok (own, pub', false) /\
+    all_classes 10 C0 SX [] (DOp "query" "GetPeople" [] selsX) = Ok cls /\
+    op_ok 10 true C0 SX "Query" selsX = true /\ no_basemodel own = true /\
+    conf_op 10 SX [] "Query" selsX jX = true /\ jwf jX = true /\
+    List.length own = 4 /\
+    accepts 11 cls (schema_enums SX) (AClass (pascal_s "GetPeople")) jX = true /\
+    covers 11 cls (AClass (pascal_s "GetPeople")) jX = true.
+Proof. do 3 eexists. vm_compute. repeat split. Qed.
